@@ -147,8 +147,39 @@ def analyse(method):
     return ptr, bool(resets), info['guard'], kinds
 
 
+def erase_where_found(trees):
+    """every removal of ONE record from an item list (`erase` with one argument) happens in the function that searched for
+    the record (find_if / find in the same body), after a lock guard declared in that body: the search and the erase are
+    one critical section, so no other removal can shift the records in between.  No single-record erase at all: refused."""
+    sites = []
+    for t in trees:
+        for fn in walk(t):
+            if fn.get('kind') not in ('FunctionDecl', 'CXXMethodDecl'):
+                continue
+            body = [c for c in kids(fn) if c.get('kind') == 'CompoundStmt']
+            if not body:
+                continue
+            erases = []
+            for x in walk(body[0]):
+                if x.get('kind') in ('CallExpr', 'CXXMemberCallExpr') and kids(x):
+                    callee = strip(kids(x)[0])
+                    if (member_name(callee) == 'erase' or callee.get('member') == 'erase') and len(kids(x)) == 2:
+                        erases.append(x)
+            if not erases:
+                continue
+            searched = any((x.get('name') in ('find_if', 'find')) or member_name(x) in ('find_if', 'find')
+                           or (x.get('kind') == 'UnresolvedLookupExpr' and x.get('name') in ('find_if', 'find')) for x in walk(body[0]))
+            locked = any(x.get('kind') == 'VarDecl' and any(k in (x.get('type') or {}).get('qualType', '') for k in ('unique_lock', 'lock_guard'))
+                         for x in walk(body[0]))
+            sites.append((fn.get('name'), searched and locked))
+    if not sites:
+        raise Untranslatable('scopedremover.h: no place where one record is erased from an item list')
+    return all(ok for _, ok in sites), sorted(set(nm for nm, _ in sites))
+
+
 def leaf_remover(out):
     trees = clang_ast(TU, 'ScopedRemover')
+    erase_ok, erase_fns = erase_where_found(trees)
     found = {}
     for t in trees:
         if t.get('kind') != 'ClassTemplateSpecializationDecl':
@@ -173,7 +204,11 @@ Definition move_assign_resets : bool := %s.
 
 (* is move assignment guarded against self-assignment (this != &other)? *)
 Definition move_assign_self_guard : bool := %s.
-''' % (shape, str(resets).lower(), str(guard).lower())
+
+(* is every single record erased from an item list in the function — and under the lock — that searched for it (%s)?
+   (the search and the erase are one critical section: nothing can shift the records in between) *)
+Definition record_erased_where_found : bool := %s.
+''' % (shape, str(resets).lower(), str(guard).lower(), ', '.join(erase_fns), str(erase_ok).lower())
 
 
 LEAVES = [('remover', leaf_remover)]
